@@ -74,6 +74,7 @@ struct Target {
     restype: Option<String>,                      // the outcome type of the function (default `res`)
     recfuel: Option<String>,
     places: Vec<(String, String, String, String)>, // expression text that denotes a mutable place inside a variable: (text, variable, getter term, setter term with $v)
+    onlystmt: Option<String>,                     // translate only the statement (anywhere in the body) whose text starts with this
     diverge: HashMap<String, String>,             // "path/arity" of a call that never returns (process::exit): the outcome it stands for
     placemethod: HashMap<String, String>,         // "name/arity" of a mutating method called on a place -> the place's new value ($0 current value)
     fldset: HashMap<String, String>,              // field name -> record update template ($0 record, $1 new value)
@@ -195,6 +196,34 @@ impl<'a> Tr<'a> {
             }
         }
         Err(format!("assignment to unknown variable {}", v))
+    }
+
+    // `return ..` itself, or a block of skipped macros (logging) that ends in one
+    fn returning_body<'e>(&self, e: &'e Expr) -> Option<&'e syn::ExprReturn> {
+        match e {
+            Expr::Return(r) => Some(r),
+            Expr::Block(b) => {
+                let n = b.block.stmts.len();
+                if n == 0 {
+                    return None;
+                }
+                for st in &b.block.stmts[..n - 1] {
+                    let skipped = match st {
+                        Stmt::Macro(m) => self.is_skipped_macro(&toks(&m.mac.path)),
+                        Stmt::Expr(Expr::Macro(m), _) => self.is_skipped_macro(&toks(&m.mac.path)),
+                        _ => false,
+                    };
+                    if !skipped {
+                        return None;
+                    }
+                }
+                match &b.block.stmts[n - 1] {
+                    Stmt::Expr(Expr::Return(r), _) => Some(r),
+                    _ => None,
+                }
+            }
+            _ => None,
+        }
     }
 
     fn is_diverging(&self, e: &Expr) -> bool {
@@ -1445,7 +1474,7 @@ impl<'a> Tr<'a> {
                 let restc = self.seq(rest, k)?;
                 Ok(Self::wrap_binds(binds, format!("obind ({}) (fun '({}, {}) =>\n{})", v, c, rc, restc)))
             }
-            Stmt::Local(l) if l.init.as_ref().map(|i| matches!(&*i.expr, Expr::Match(m) if m.arms.iter().any(|a| matches!(&*a.body, Expr::Return(_)) || self.is_diverging(&a.body)))).unwrap_or(false) => {
+            Stmt::Local(l) if l.init.as_ref().map(|i| matches!(&*i.expr, Expr::Match(m) if m.arms.iter().any(|a| self.returning_body(&a.body).is_some() || self.is_diverging(&a.body)))).unwrap_or(false) => {
                 // let x = match e { P => v, Q => return r };  — the arms that yield a value go on with x bound
                 let init = l.init.as_ref().unwrap();
                 let m = match &*init.expr { Expr::Match(m) => m, _ => unreachable!() };
@@ -1469,14 +1498,22 @@ impl<'a> Tr<'a> {
                     let pat = self.pattern(&a.pat)?;
                     let name2 = name.clone();
                     let mut arm_code = |me: &mut Self, body: &Expr| -> R<String> {
-                        if let Expr::Return(r) = body {
+                        if let Some(r) = me.returning_body(body) {
                             return match &r.expr {
                                 Some(x) => me.ret(x),
+                                None if me.mode() == "mutself" => me.retvars_value(),
+                                None if me.mode() == "unit" => Ok("Ok tt".to_string()),
                                 None => Err("bare return in a let-match".into()),
                             };
                         }
                         if let Some(d) = me.diverges(body) {
                             return d;
+                        }
+                        if let Expr::Macro(mc) = body {
+                            let pth = toks(&mc.mac.path);
+                            if pth == "panic" || pth == "unreachable" {
+                                return Ok(format!("Panic {}", me.t.panic_site));
+                            }
                         }
                         let mut ab = Vec::new();
                         let (v, kind) = me.expr(body, &mut ab)?;
@@ -1512,8 +1549,23 @@ impl<'a> Tr<'a> {
             Stmt::Local(l) if l.init.as_ref().map(|i| matches!(&*i.expr, Expr::Match(m) if m.arms.iter().any(|a| self.arm_needs_block(&a.body)))).unwrap_or(false) => {
                 // let x = match e { P => fallible-or-block, ... };
                 let init = l.init.as_ref().unwrap();
+                // let (a, b) = match ..: the value is bound to a fresh name and taken apart afterwards
+                let tuple_names: Option<Vec<String>> = match &l.pat {
+                    Pat::Tuple(t) => {
+                        let mut ns = Vec::new();
+                        for x in &t.elems {
+                            match x {
+                                Pat::Ident(i) => ns.push(i.ident.to_string()),
+                                other => return Err(format!("let pattern {}", toks(other))),
+                            }
+                        }
+                        Some(ns)
+                    }
+                    _ => None,
+                };
                 let name = match &l.pat {
                     Pat::Ident(i) => i.ident.to_string(),
+                    Pat::Tuple(_) => "tuple_value".to_string(),
                     _ => return Err(format!("let pattern {}", toks(&l.pat))),
                 };
                 let vars: Vec<String> = self.scan(&init.expr).assigned.into_iter().filter(|v| self.lookup(v).is_some()).collect();
@@ -1531,7 +1583,16 @@ impl<'a> Tr<'a> {
                     names.push(self.rebind(v)?);
                 }
                 let c = self.bind(&name, kind);
-                let restc = self.seq(rest, k)?;
+                let mut destructure = String::new();
+                if let Some(ns) = &tuple_names {
+                    let mut cs = Vec::new();
+                    for n in ns {
+                        let kind = self.t.kinds.get(n).cloned().unwrap_or(Kind::Num);
+                        cs.push(self.bind(n, kind));
+                    }
+                    destructure = format!("let '({}) := {} in\n", cs.join(", "), c);
+                }
+                let restc = format!("{}{}", destructure, self.seq(rest, k)?);
                 if vars.is_empty() {
                     Ok(format!("obind ({}) (fun {} =>\n{})", inner, c, restc))
                 } else {
@@ -1682,6 +1743,7 @@ impl<'a> Tr<'a> {
     fn arm_needs_block(&self, body: &Expr) -> bool {
         match body {
             Expr::Block(_) => true,
+            Expr::Try(_) => true,
             Expr::MethodCall(m) if is_unwrap(m) && self.is_fallible(&m.receiver) => true,
             other => self.is_fallible(other),
         }
@@ -1791,8 +1853,8 @@ impl<'a> Tr<'a> {
                 }
             }
         }
-        // f(x)?;  — a fallible call whose value is dropped
-        if let Expr::Try(tr) = e {
+        // f(x)?;  — a fallible call whose value is dropped (not when it IS the value of a block used as a value)
+        if let (Expr::Try(tr), false) = (e, rest.is_empty() && self.value_tail(k)) {
             let mut binds = Vec::new();
             if let Ok(r) = self.res_expr(&tr.expr, &mut binds) {
                 let restc = self.seq(rest, k)?;
@@ -2221,6 +2283,18 @@ impl<'a> Tr<'a> {
         }
     }
 
+    // the statement is the value of a block used as a value (let x = { ..; e } / a match arm yielding a value)
+    fn value_tail(&self, k: &K) -> bool {
+        let mut kk = k;
+        loop {
+            match kk {
+                K::Seq(r, outer, _) if r.is_empty() => kk = outer,
+                K::Val | K::ValJoin(_) => return true,
+                _ => return false,
+            }
+        }
+    }
+
     fn tail_position(&self, k: &K) -> bool {
         let mut kk = k;
         loop {
@@ -2338,6 +2412,10 @@ impl<'a> Tr<'a> {
                     "Err" => "Err".to_string(),
                     _ => self.t.ctor.get(&n).cloned().ok_or(format!("pattern constructor {}", n))?,
                 };
+                if ts.elems.iter().all(|x| matches!(x, Pat::Rest(_))) {
+                    // V4(..): the payload is not looked at; the table's constructor stands for the whole variant
+                    return Ok(ctor);
+                }
                 let mut parts = Vec::new();
                 for x in &ts.elems {
                     parts.push(self.pattern(x)?);
@@ -2879,6 +2957,7 @@ fn parse_targets(text: &str) -> (String, Vec<Target>) {
                 let (a, b) = arrow(rest);
                 t.placemethod.insert(norm(&a), b);
             }
+            "onlystmt" => t.onlystmt = Some(norm(rest)),
             "diverge" => {
                 let (a, b) = arrow(rest);
                 t.diverge.insert(norm(&a), b);
@@ -3139,7 +3218,7 @@ fn translate_target(repo: &str, t0: &Target) -> Result<String, String> {
         })
         .collect();
     let declared: Vec<String> = t.params.iter().map(|p| p.0.clone()).filter(|p| p != "self" && !p.starts_with("self.") && !p.starts_with("env.")).collect(); // env.x: a piece of the environment (a generator, a clock) as a variable
-    if rust_params != declared {
+    if rust_params != declared && t.onlystmt.is_none() {
         return Err(format!("{} :: {}: parameters are {:?}, the table declares {:?}", t.file, t.func, rust_params, declared));
     }
     module_consts(&file, &mut t);
@@ -3162,8 +3241,31 @@ fn translate_target(repo: &str, t0: &Target) -> Result<String, String> {
         header.push_str(" {struct fuel}");
     }
     let _ = write!(header, " : {} ({}) :=\n", t.restype.clone().unwrap_or("res".to_string()), t.ret);
+    // onlystmt: the one statement of the body (at any depth) whose text starts with the given prefix
+    let picked: Option<Vec<Stmt>> = match &t.onlystmt {
+        Some(prefix) => {
+            struct Find<'p> { prefix: &'p str, found: Option<Stmt> }
+            impl<'ast, 'p> syn::visit::Visit<'ast> for Find<'p> {
+                fn visit_stmt(&mut self, st: &'ast Stmt) {
+                    if self.found.is_none() && toks(st).starts_with(self.prefix) {
+                        self.found = Some(st.clone());
+                        return;
+                    }
+                    syn::visit::visit_stmt(self, st);
+                }
+            }
+            let mut f = Find { prefix: prefix.as_str(), found: None };
+            syn::visit::Visit::visit_block(&mut f, block);
+            Some(vec![f.found.ok_or(format!("{} :: {}: no statement starts with `{}`", t.file, t.func, prefix))?])
+        }
+        None => None,
+    };
+    let stmts: &[Stmt] = match &picked {
+        Some(v) => unsafe { std::mem::transmute::<&[Stmt], &[Stmt]>(&v[..]) },
+        None => &block.stmts,
+    };
     let body = tr
-        .seq(&block.stmts, &K::End)
+        .seq(stmts, &K::End)
         .map_err(|e| format!("{} :: {}: outside the translated subset: {}", t.file, t.func, e))?;
     // a recursive function: the recursive calls of the table use fuel'
     let body = match &t.recfuel {
